@@ -503,6 +503,128 @@ Section Proofs.
     unfold out_or_v0. rewrite (i_out n s HI) by lia. reflexivity.
   Qed.
 
+  (** ** No conflicting accesses: two macroblock steps that are enabled in the same
+      reachable state touch disjoint cells of the shared context row (a step of row
+      y at x reads cells x, x+1 and writes cell x), so they commute — the model's
+      form of "no data race on the top arrays", and what justifies taking one
+      macroblock as one atomic step. *)
+  Theorem rowsync_no_conflict : forall n sched s i j y x tl l y' x' tl' l',
+    run (init n) sched = Some s -> i <> j ->
+    nth_error (workers V s) i = Some (AtMB y x tl l) -> guard s y x = true ->
+    nth_error (workers V s) j = Some (AtMB y' x' tl' l') -> guard s y' x' = true ->
+    y <> y' /\ x' <> x /\ x' <> S x /\ x <> S x'.
+  Proof.
+    assert (Hlt : forall n s i j y x tl l y' x' tl' l', Inv n s -> y < y' ->
+      nth_error (workers V s) i = Some (AtMB y x tl l) ->
+      nth_error (workers V s) j = Some (AtMB y' x' tl' l') -> guard s y' x' = true ->
+      x' + 2 <= x).
+    { intros n s i j y x tl l y' x' tl' l' HI Hyy Hi Hj Hg'.
+      destruct (i_worker n s HI i y x tl l Hi) as (_ & Hx & Hd & _).
+      destruct (i_worker n s HI j y' x' tl' l' Hj) as (_ & Hx' & Hd' & _).
+      unfold ConcRowSync.guard in Hg'. apply orb_true_iff in Hg'. destruct Hg' as [Hg'|Hg'].
+      { apply Nat.eqb_eq in Hg'. lia. }
+      apply Nat.leb_le in Hg'. unfold ConcRowSync.needed in Hg'.
+      pose proof (done_mono n s HI) as Hmono.
+      destruct (Nat.eq_dec y' (S y)) as [->|Hne].
+      - replace (S y - 1) with y in Hg' by lia. lia.
+      - pose proof (Hmono (S y) (y' - 1) ltac:(lia)) as H1.
+        pose proof (i_chain n s HI y) as Hc. lia. }
+    intros n sched s i j y x tl l y' x' tl' l' Hr Hij Hi Hg Hj Hg'.
+    pose proof (rowsync_inv n sched s Hr) as HI.
+    assert (Hyy : y <> y').
+    { intros ->. apply Hij. exact (i_unique n s HI i j y' x x' tl tl' l l' Hi Hj). }
+    split; [exact Hyy|].
+    destruct (Nat.lt_ge_cases y y') as [Hl|Hge].
+    - pose proof (Hlt n s i j y x tl l y' x' tl' l' HI Hl Hi Hj Hg'). lia.
+    - pose proof (Hlt n s j i y' x' tl' l' y x tl l HI ltac:(lia) Hj Hi Hg). lia.
+  Qed.
+
+  (** ** Every schedule is finite: each step increases a bounded measure by one. *)
+  Fixpoint sumf (g : nat -> nat) (k : nat) : nat :=
+    match k with 0 => 0 | S k' => sumf g k' + g k' end.
+
+  Lemma sumf_upd1_lt g y v k : y < k -> sumf (upd1 g y v) k + g y = sumf g k + v.
+  Proof.
+    induction k as [|k IH]; intros Hy; [lia|]. cbn [sumf].
+    destruct (Nat.eq_dec y k) as [->|Hne].
+    - rewrite upd1_eq.
+      assert (E : sumf (upd1 g k v) k = sumf g k).
+      { clear. assert (G : forall m, m <= k -> sumf (upd1 g k v) m = sumf g m).
+        { induction m as [|m IHm]; intros Hm; [reflexivity|]. cbn [sumf].
+          rewrite IHm by lia. rewrite upd1_neq by lia. reflexivity. }
+        apply G. lia. }
+      rewrite E. lia.
+    - rewrite (upd1_neq g y v k) by lia. specialize (IH ltac:(lia)). lia.
+  Qed.
+
+  Lemma sumf_le g k b : (forall y, g y <= b) -> sumf g k <= k * b.
+  Proof. intros H. induction k as [|k IH]; cbn [sumf]; [lia|]. specialize (H k). lia. Qed.
+
+  Fixpoint nexited (ws : list (wstate V)) : nat :=
+    match ws with [] => 0 | w :: tl => (if is_exited V w then 1 else 0) + nexited tl end.
+
+  Lemma nexited_le ws : nexited ws <= length ws.
+  Proof. induction ws as [|w ws IH]; cbn; [lia|]. destruct (is_exited V w); lia. Qed.
+
+  Lemma nexited_set_nth ws i w w' : nth_error ws i = Some w ->
+    nexited (set_nth ws i w') + (if is_exited V w then 1 else 0)
+    = nexited ws + (if is_exited V w' then 1 else 0).
+  Proof.
+    revert i; induction ws as [|h tl IH]; intros [|i] H; cbn in *; try discriminate.
+    - inversion H; subst. lia.
+    - specialize (IH i H). lia.
+  Qed.
+
+  Definition measure (s : state) : nat :=
+    sumf (done V s) mbH + nextRow V s + nexited (workers V s) + recRow V s.
+
+  Lemma step_measure n s l s' : Inv n s -> step s l = Some s' -> measure s' = S (measure s).
+  Proof.
+    intros HI Hs. unfold measure. destruct l as [i|]; cbn [ConcRowSync.step] in Hs.
+    - unfold ConcRowSync.step_worker in Hs.
+      destruct (nth_error (workers V s) i) as [[|y x tl l|]|] eqn:Hw; try discriminate.
+      + destruct (nextRow V s <? mbH); inversion Hs; subst; cbn [done nextRow workers recRow].
+        * pose proof (nexited_set_nth (workers V s) i Idle (AtMB (nextRow V s) 0 v0 v0) Hw) as Hn.
+          cbn in Hn. lia.
+        * pose proof (nexited_set_nth (workers V s) i Idle Exited Hw) as Hn. cbn in Hn. lia.
+      + destruct (guard s y x) eqn:Hg; [|discriminate]. inversion Hs; subst; cbn [done nextRow workers recRow].
+        destruct (i_worker n s HI i y x tl l Hw) as (Hy & Hx & Hd & _).
+        pose proof (i_next n s HI) as Hnx.
+        pose proof (sumf_upd1_lt (done V s) y (S x) mbH ltac:(lia)) as Hsum.
+        pose proof (nexited_set_nth (workers V s) i (AtMB y x tl l)
+                      (if S x <? mbW then AtMB y (S x) (snd (top V s x))
+                         (f y x tl (snd (top V s x)) (if S x <? mbW then snd (top V s (S x)) else v0) l)
+                       else Idle) Hw) as Hn.
+        assert (He : (if is_exited V (if S x <? mbW then AtMB y (S x) (snd (top V s x))
+                         (f y x tl (snd (top V s x)) (if S x <? mbW then snd (top V s (S x)) else v0) l)
+                       else Idle) then 1 else 0) = 0) by (destruct (S x <? mbW); reflexivity).
+        rewrite He in Hn. cbn [is_exited] in Hn. lia.
+    - unfold ConcRowSync.step_rec in Hs.
+      destruct ((recRow V s <? mbH) && (done V s (recRow V s) =? mbW)); inversion Hs; subst.
+      cbn [done nextRow workers recRow]. lia.
+  Qed.
+
+  Theorem rowsync_terminates : forall n sched s,
+    run (init n) sched = Some s -> length sched <= mbH * mbW + 2 * mbH + n.
+  Proof.
+    intros n sched.
+    assert (G : forall s0, Inv n s0 -> forall s1, run s0 sched = Some s1 ->
+                measure s1 = length sched + measure s0).
+    { induction sched as [|l rest IH]; intros s0 H0 s1 Hr1; cbn [ConcRowSync.run] in Hr1.
+      - inversion Hr1; subst. reflexivity.
+      - destruct (step s0 l) as [s2|] eqn:Hs; [|discriminate].
+        rewrite (IH s2 (step_inv n s0 l s2 H0 Hs) s1 Hr1).
+        rewrite (step_measure n s0 l s2 H0 Hs). cbn [length]. lia. }
+    intros s Hr.
+    pose proof (G (init n) (init_inv n) s Hr) as Hm.
+    pose proof (rowsync_inv n sched s Hr) as HI.
+    assert (Hb : measure s <= mbH * mbW + mbH + n + mbH).
+    { unfold measure. pose proof (sumf_le (done V s) mbH mbW (i_done_le n s HI)).
+      pose proof (i_next n s HI). pose proof (i_rec_le n s HI).
+      pose proof (nexited_le (workers V s)). rewrite (i_len n s HI) in H2. lia. }
+    lia.
+  Qed.
+
   (** ** Trace conformance: an accepted trace is a run of the system to a final state *)
   Notation check_event := (check_event V v0 f mbW mbH).
   Notation check_from := (check_from V v0 f mbW mbH).
